@@ -119,6 +119,8 @@ pub struct Opts {
     pub commit_compare: bool,
     pub obs_cfg_slots: Vec<u64>,
     pub probes: Vec<(String, Value)>,
+    /// every read method is issued over the universe after every path, only to see that it answers (no comparison)
+    pub observe_only: bool,
 }
 
 impl Opts {
@@ -135,6 +137,7 @@ impl Opts {
             commit_compare: false,
             obs_cfg_slots: vec![0, 1, 2, 3],
             probes: view_probes(),
+            observe_only: false,
         }
     }
 }
@@ -355,6 +358,20 @@ impl<'a> Runner<'a> {
         self.states.insert(obs::fp(&d));
         if world.desync {
             self.stats.bump("desync.not_compared");
+        }
+        if self.opts.observe_only {
+            let cfg = self.obs_cfg(&world);
+            let ob = obs::obs(&mut self.subject, &world.uni, &cfg);
+            self.stats.observed += 1;
+            self.outcomes.insert(h64(&ob));
+            for l in ob.lines().filter(|l| l.ends_with("=> PANIC")) {
+                violations.push(self.viol("panic", path, format!("a read request issued after this history panicked: {}", trunc(l, 600))));
+                break;
+            }
+            if self.subject.broken {
+                self.subject.recreate();
+            }
+            return violations;
         }
         if self.opts.nf_compare && (has_dev || self.opts.twin_always) && !world.desync {
             let cfg = self.obs_cfg(&world);
